@@ -7,11 +7,6 @@ From V Require Import Base.Common Model.C13_Importer.
 Open Scope N_scope.
 
 (* ================= the size chunker ================= *)
-Fixpoint all_but_last {A} (P : A -> Prop) (l : list A) : Prop :=
-  match l with
-  | [] => True
-  | x :: r => match r with [] => True | _ => P x end /\ all_but_last P r
-  end.
 
 Lemma chunk_fuel_spec k : (0 < k)%nat -> forall fuel bs, (length bs <= fuel)%nat ->
   concat (chunk_fuel fuel k bs) = bs /\
@@ -88,8 +83,6 @@ Proof. unfold node_filesize. induction a as [|x r IH]; cbn [app fold_right]; [li
 Lemma in_posts ch n : In n (posts ch) <-> exists l, In l ch /\ In n (postorder (fst l)).
 Proof. unfold posts. rewrite in_flat_map. tauto. Qed.
 
-(* a property of every block of a DAG *)
-Definition all_nodes (P : tree -> Prop) (t : tree) : Prop := forall n, In n (postorder t) -> P n.
 
 Lemma all_nodes_node P ch : all_nodes P (Node ch) <-> P (Node ch) /\ forall l, In l ch -> all_nodes P (fst l).
 Proof. unfold all_nodes. cbn [postorder]. split.
@@ -221,19 +214,6 @@ Proof. intros HQ s Hd. apply done_false_iff in Hd. unfold leaf_mk, new_leaf_data
   constructor; cbn; auto. congruence. Qed.
 
 (* ================= balanced layout ================= *)
-(* an internal node: between 1 and maxlinks children, every link records the bytes below it *)
-Definition node_ok (ml : N) (n : tree) : Prop :=
-  match n with
-  | Leaf _ => True
-  | Node ch => 1 <= N.of_nat (length ch) <= ml /\ Forall (fun l => snd l = tsize (fst l)) ch
-  end.
-(* every leaf at depth d *)
-Fixpoint uniform (d : nat) (t : tree) : Prop :=
-  match d, t with
-  | O, Leaf _ => True
-  | S d', Node ch => forall l, In l ch -> uniform d' (fst l)
-  | _, _ => False
-  end.
 Definition bal_Q (ml : N) (d : nat) (t : tree) : Prop := all_nodes (node_ok ml) t /\ uniform d t.
 
 Lemma links_sizes Q new : Forall (link_ok Q) new -> Forall (fun l => snd l = tsize (fst l)) new.
@@ -329,3 +309,165 @@ Qed.
 Lemma balanced_one_link_diverges_l fuel : forall d root fsz s, done s = false -> layout_loop 1 fuel (S d) root fsz s = inl IFuel.
 Proof. induction fuel as [|f IH]; intros d root fsz s Hd; cbn [layout_loop]; rewrite Hd; [reflexivity|].
   unfold add_child. cbn [app fill_node_rec fill_loop length N.of_nat]. cbn. apply IH. exact Hd. Qed.
+
+(* ================= trickle layout ================= *)
+Definition tri_Q (t : tree) : Prop := all_nodes tnode_ok t.
+
+Lemma filled_nil Q ml node s : filled Q ml node s [] s.
+Proof. constructor; auto. Qed.
+
+Lemma filled_cons Q ml node s c sz s1 new s' : child_ok Q s c sz s1 -> filled Q ml (node ++ [(c, sz)]) (db_add c s1) new s' ->
+  filled Q ml node s ((c, sz) :: new) s'.
+Proof. intros [Hc1 Hc2 Hc3 Hc4 Hc5] [Hf1 Hf2 Hf3]. cbn [db_add d_rest d_out] in *. constructor.
+  - unfold lvs in *. cbn [flat_map fst]. rewrite <- app_assoc, <- Hf1. exact Hc1.
+  - unfold posts in *. cbn [flat_map fst]. rewrite Hf2, Hc4, (postorder_below c), !rev_app_distr. cbn [rev app].
+    rewrite <- !app_assoc. cbn [app]. reflexivity.
+  - constructor; [|exact Hf3]. repeat split; auto. Qed.
+
+Lemma filled_app Q ml node s new1 s1 new2 s2 : filled Q ml node s new1 s1 -> filled Q ml (node ++ new1) s1 new2 s2 ->
+  filled Q ml node s (new1 ++ new2) s2.
+Proof. intros [Ha1 Ha2 Ha3] [Hb1 Hb2 Hb3]. constructor.
+  - rewrite lvs_app, <- app_assoc, <- Hb1. exact Ha1.
+  - rewrite posts_app, rev_app_distr, <- app_assoc, <- Ha2. exact Hb2.
+  - apply Forall_app. auto. Qed.
+
+Lemma repeat_loop_spec Q mk ml : mk_spec Q mk -> forall n node s,
+  exists new s', repeat_loop mk n node s = inr (node ++ new, s') /\ filled Q ml node s new s' /\
+    (length new <= n)%nat /\ ((0 < n)%nat -> done s = false -> new <> []) /\ ((length new < n)%nat -> done s' = true).
+Proof.
+  intros Hmk. induction n as [|n IH]; intros node s; cbn [repeat_loop].
+  - exists [], s. rewrite app_nil_r. split; [reflexivity|]. split; [apply filled_nil|]. cbn. repeat split; try lia.
+  - destruct (done s) eqn:Hd.
+    { exists [], s. rewrite app_nil_r. split; [reflexivity|]. split; [apply filled_nil|]. cbn. repeat split; auto; try lia; congruence. }
+    destruct (Hmk s Hd) as (c & sz & s1 & -> & Hc). unfold add_child.
+    destruct (IH (node ++ [(c, sz)]) (db_add c s1)) as (new & s' & -> & Hf & Hlen & _ & Hfin).
+    exists ((c, sz) :: new), s'. rewrite <- app_assoc. cbn [app]. split; [reflexivity|].
+    split; [eapply filled_cons; eauto|]. cbn [length]. repeat split; try lia; try congruence. intros H. apply Hfin. lia.
+Qed.
+
+Definition depth_allowed (md : option nat) (j : nat) : Prop := match md with Some m => (j < m)%nat | None => True end.
+
+Lemma depth_loop_spec Q ml mkd md : forall fuel depth node s,
+  (forall j, (depth <= j < depth + fuel)%nat -> depth_allowed md j -> mk_spec Q (mkd j)) ->
+  (length (d_rest s) <= fuel)%nat ->
+  exists new s', depth_loop mkd fuel depth md node s = inr (node ++ new, s') /\ filled Q ml node s new s' /\
+    (md = None -> done s' = true).
+Proof.
+  induction fuel as [|f IH]; intros depth node s Hmk Hfuel; cbn [depth_loop].
+  - assert (Hd : done s = true) by (apply done_true_iff; destruct (d_rest s); [reflexivity|cbn in Hfuel; lia]).
+    rewrite Hd. exists [], s. rewrite app_nil_r. split; [destruct md as [m|]; [destruct (Nat.ltb depth m)|]; reflexivity|].
+    split; [apply filled_nil|auto].
+  - destruct (match md with Some m => Nat.ltb depth m | None => true end) eqn:Hg.
+    2:{ exists [], s. rewrite app_nil_r. split; [reflexivity|]. split; [apply filled_nil|]. intros ->. discriminate. }
+    destruct (done s) eqn:Hd.
+    { exists [], s. rewrite app_nil_r. split; [reflexivity|]. split; [apply filled_nil|auto]. }
+    assert (Hallow : depth_allowed md depth).
+    { destruct md as [m|]; cbn; [apply Nat.ltb_lt; exact Hg|exact I]. }
+    destruct (repeat_loop_spec Q _ ml (Hmk depth ltac:(lia) Hallow) depthRepeat node s) as (new1 & s1 & -> & Hf1 & _ & Hne & _).
+    specialize (Hne ltac:(unfold depthRepeat; lia) Hd).
+    destruct (IH (S depth) (node ++ new1) s1) as (new2 & s2 & -> & Hf2 & Hdone).
+    { intros j Hj. apply Hmk. lia. }
+    { destruct Hf1 as [Hr _ Hl]. assert (lvs new1 <> []) by (eapply lvs_nonempty; eauto).
+      rewrite Hr, app_length in Hfuel. destruct (lvs new1); [congruence|]. cbn [length] in Hfuel. lia. }
+    exists (new1 ++ new2), s2. rewrite app_assoc. split; [reflexivity|]. split; [eapply filled_app; eauto|exact Hdone].
+Qed.
+
+Lemma tnode_from_links node : node <> [] -> Forall (link_ok tri_Q) node ->
+  tri_Q (Node node) /\ leaves (Node node) <> [] /\ node_filesize node = tsize (Node node).
+Proof. intros Hne Hl. split; [|split].
+  - apply all_nodes_node. split.
+    + cbn [tnode_ok]. split; [exact Hne|eapply links_sizes; eauto].
+    + intros l Hin. rewrite Forall_forall in Hl. apply (Hl l Hin).
+  - cbn [leaves]. eapply lvs_nonempty; eauto.
+  - cbn [tsize]. eapply node_filesize_tsize; eauto. Qed.
+
+Lemma tri_leaf_mk : mk_spec tri_Q leaf_mk.
+Proof. apply leaf_mk_spec. intros d. unfold tri_Q. apply all_nodes_leaf. exact I. Qed.
+
+(* fillTrickleRec: a call with maxDepth = d needs fuel d (+1); the unlimited call needs more fuel than there are chunks *)
+Lemma trickle_rec_spec ml : 1 <= ml -> forall fuel md node s,
+  (match md with Some d => (d <= fuel)%nat | None => (length (d_rest s) < fuel)%nat end) -> (1 <= fuel)%nat ->
+  exists new s', trickle_rec ml fuel md node s = inr (Node (node ++ new), node_filesize (node ++ new), s') /\
+    filled tri_Q ml node s new s' /\ (node = [] -> done s = false -> new <> []) /\ (md = None -> done s' = true).
+Proof.
+  intros Hml. induction fuel as [|f IH]; intros md node s Hfuel H1; [lia|]. cbn [trickle_rec].
+  destruct (fill_loop_spec tri_Q leaf_mk ml tri_leaf_mk (N.to_nat ml) node s ltac:(lia))
+    as (new1 & s1 & -> & Hf1 & _ & _ & Hne1 & _).
+  destruct (depth_loop_spec tri_Q ml (fun d => trickle_rec ml f (Some d) []) md (length (d_rest s1)) 1 (node ++ new1) s1)
+    as (new2 & s2 & -> & Hf2 & Hdone); [|lia|].
+  { intros j Hj Hallow s0 Hd0.
+    assert (Hjf : (j <= f)%nat).
+    { destruct md as [m|]; cbn in Hallow; [lia|]. destruct Hf1 as [Hr _ _]. rewrite Hr, app_length in Hfuel. lia. }
+    destruct (IH (Some j) [] s0 Hjf ltac:(lia)) as (new & s' & E & Hf & Hne & _). cbn [app] in E.
+    specialize (Hne eq_refl Hd0). destruct Hf as [Hr Ho Hl].
+    destruct (tnode_from_links new Hne Hl) as (HQ & Hlv & Hsz).
+    eexists _, _, _. split; [exact E|]. constructor; auto. }
+  exists (new1 ++ new2), s2. rewrite app_assoc. split; [reflexivity|]. split; [eapply filled_app; eauto|]. split; [|exact Hdone].
+  intros -> Hd. cbn [length] in Hne1. specialize (Hne1 ltac:(lia) Hd). destruct new1; [congruence|]. cbn. congruence.
+Qed.
+
+(* trickle.Layout terminates for maxlinks >= 1; the leaves are the chunks (none for the empty file: an internal node without links) *)
+Lemma trickle_layout_spec ml chunks : 1 <= ml ->
+  exists ch, trickle_layout ml chunks = inr (Node ch, tsize (Node ch), postorder (Node ch)) /\
+    leaves (Node ch) = chunks /\ read_back (Node ch) = concat chunks /\
+    Forall (link_ok tri_Q) ch /\ (chunks <> [] -> ch <> []).
+Proof.
+  intros Hml. unfold trickle_layout.
+  destruct (trickle_rec_spec ml Hml (S (length chunks)) None [] (mkdb chunks [])) as (new & s' & -> & [Hr Ho Hl] & Hne & Hdone); [cbn; lia|lia|].
+  cbn [app d_rest d_out db_add] in *. exists new.
+  specialize (Hdone eq_refl). apply done_true_iff in Hdone. rewrite Hdone, app_nil_r in Hr.
+  rewrite rev'_rev. cbn [rev]. rewrite Ho, app_nil_r, rev_involutive. cbn [postorder]. fold (posts new).
+  rewrite (node_filesize_tsize _ _ Hl). split; [reflexivity|]. cbn [leaves]. fold (lvs new).
+  split; [auto|]. split; [unfold read_back; cbn [leaves]; fold (lvs new); rewrite <- Hr; reflexivity|]. split; [exact Hl|].
+  intros Hc. apply Hne; [reflexivity|]. apply done_false_iff. exact Hc.
+Qed.
+
+(* ================= recorded sizes let a reader seek ================= *)
+
+Lemma read_range_cons c sz r off n :
+  read_range (Node ((c, sz) :: r)) off n =
+  if sz <=? off then read_range (Node r) (off - sz) n
+  else let here := N.min n (sz - off) in
+       read_range c off here ++ (if here <? n then read_range (Node r) 0 (n - here) else []).
+Proof. reflexivity. Qed.
+
+Lemma read_back_cons c sz r : read_back (Node ((c, sz) :: r)) = read_back c ++ read_back (Node r).
+Proof. unfold read_back. cbn [leaves flat_map fst]. apply concat_app. Qed.
+
+Lemma firstn_skipn_app {A} (a b : list A) off n :
+  firstn n (skipn off (a ++ b)) =
+  if (length a <=? off)%nat then firstn n (skipn (off - length a) b)
+  else firstn (Nat.min n (length a - off)) (skipn off a) ++ firstn (n - (length a - off)) b.
+Proof.
+  rewrite skipn_app. destruct (Nat.leb_spec (length a) off) as [H|H].
+  - rewrite (skipn_all2 a H). reflexivity.
+  - replace (off - length a)%nat with O by lia. cbn [skipn]. rewrite firstn_app, skipn_length.
+    f_equal. destruct (Nat.le_ge_cases n (length a - off)) as [H2|H2].
+    + rewrite Nat.min_l by lia. reflexivity.
+    + rewrite Nat.min_r by lia. rewrite !firstn_all2; auto; rewrite skipn_length; lia.
+Qed.
+
+Lemma read_range_correct t : all_nodes sized t -> forall off n,
+  read_range t off n = firstn (N.to_nat n) (skipn (N.to_nat off) (read_back t)).
+Proof.
+  induction t as [d|ch IH] using tree_ind'; intros Hs off n.
+  - cbn [read_range]. unfold read_back. cbn. rewrite app_nil_r. reflexivity.
+  - apply all_nodes_node in Hs as [Hsz Hch]. cbn [sized] in Hsz.
+    revert off n. induction ch as [|[c sz] r IHr]; intros off n.
+    + cbn. rewrite skipn_nil, firstn_nil. reflexivity.
+    + inversion IH as [|? ? Hc Hr]; subst. inversion Hsz as [|? ? Hcs Hrs]; subst. cbn [fst snd] in *.
+      specialize (IHr Hr Hrs (fun l Hl => Hch l (or_intror Hl))).
+      specialize (Hc (Hch (c, sz) (or_introl eq_refl))).
+      rewrite read_range_cons, read_back_cons, firstn_skipn_app.
+      assert (Hlen : length (read_back c) = N.to_nat sz).
+      { rewrite Hcs, tsize_read_back. unfold blen. lia. }
+      rewrite Hlen.
+      destruct (N.leb_spec sz off) as [H|H].
+      * destruct (Nat.leb_spec (N.to_nat sz) (N.to_nat off)) as [H'|H']; [|lia].
+        rewrite IHr. replace (N.to_nat (off - sz)) with (N.to_nat off - N.to_nat sz)%nat by lia. reflexivity.
+      * destruct (Nat.leb_spec (N.to_nat sz) (N.to_nat off)) as [H'|H']; [lia|].
+        cbv zeta. rewrite Hc. f_equal; [f_equal; lia|].
+        destruct (N.ltb_spec (N.min n (sz - off)) n) as [H2|H2].
+        -- rewrite IHr. cbn [N.to_nat skipn]. f_equal. lia.
+        -- replace (N.to_nat n - (N.to_nat sz - N.to_nat off))%nat with O by lia. reflexivity.
+Qed.
